@@ -134,6 +134,12 @@ def subject(key):
             _SUBJ[key] = akai_subject(akai_small())
         elif key == "akai_pair":
             _SUBJ[key] = akai_subject(akai_pair())
+        elif key == "akai_small_mdx":
+            # the small image inside an MDX wrapper (64-byte header, payload, 300 bytes of descriptor behind it)
+            from mcv.gen import containers as C
+            img, samples, bounds = akai_subject(akai_small())
+            s2 = {k: dict(v, need=v["need"] + 64) for k, v in samples.items()}
+            _SUBJ[key] = (C.mdx(img, descriptor=300), s2, sorted({b + 64 for b in bounds} | {64, 64 + len(img)}))
         elif key == "akai_big2352":
             # the same image delivered in 2352-byte raw sectors: a cut leaves whole raw sectors (2048 image bytes each) and a
             # partial one; a sample is complete when every raw sector holding one of its bytes is
@@ -213,7 +219,7 @@ class Check(CheckBase):
     title = "On a truncated image every reported file is a well-formed prefix"
     rule = ("images: AKAI (2 partitions, directory before and -- by explicit layout -- after the data, files of 1, 2 "
             "(fragmented) and 3 sectors, L/R pair, a file filling its last sector), a small 64 KiB AKAI image, Roland (3 "
-            "samples, permuted chain, reverse mode), CDDA (3 tracks, real files), the big AKAI image delivered in 2352-byte raw sectors (cuts in the raw file: every 1009th byte, the raw sectors holding the second partition header densely). Cut points: every structure boundary named "
+            "samples, permuted chain, reverse mode), CDDA (3 tracks, real files), the small AKAI image inside an MDX wrapper, the big AKAI image delivered in 2352-byte raw sectors (cuts in the raw file: every 1009th byte, the raw sectors holding the second partition header densely). Cut points: every structure boundary named "
             "by the writer's layout map (partition header fields, used SAT words, directory entries, sample header fields, "
             "sector/cluster boundaries) -1/0/+1, plus every 509th byte (quick); thorough: EVERY byte of the small AKAI image "
             "and of the CDDA bin, every 16th byte of the big AKAI image, every 4096th of the Roland image + boundaries. Oracle: "
@@ -225,16 +231,16 @@ class Check(CheckBase):
 
     def shards(self):
         cases = []
-        for key in ("akai_small", "akai_big", "akai_pair", "roland", "cdda", "akai_big2352"):
+        for key in ("akai_small", "akai_big", "akai_pair", "roland", "cdda", "akai_big2352", "akai_small_mdx"):
             img, samples, bounds = subject(key)
             cuts = set()
             for b in bounds:
                 for d in (-1, 0, 1):
                     if 0 <= b + d <= len(img):
                         cuts.add(b + d)
-            stride = {"akai_small": 509, "akai_big": 509, "akai_pair": 509, "roland": 65521, "cdda": 509, "akai_big2352": 1009}[key]
+            stride = {"akai_small": 509, "akai_big": 509, "akai_pair": 509, "roland": 65521, "cdda": 509, "akai_big2352": 1009, "akai_small_mdx": 509}[key]
             if not self.quick:
-                stride = {"akai_small": 1, "akai_big": 16, "akai_pair": 16, "roland": 4096, "cdda": 1, "akai_big2352": 64}[key]
+                stride = {"akai_small": 1, "akai_big": 16, "akai_pair": 16, "roland": 4096, "cdda": 1, "akai_big2352": 64, "akai_small_mdx": 7}[key]
             lo = R.DATA_FAT_OFF - 70000 if key == "roland" and self.quick else 0
             cuts.update(range(lo, len(img) + 1, stride))
             if key == "roland":
